@@ -54,6 +54,8 @@ fn invokers(store: u8) -> Vec<String> {
         format!("(deep 3 (lambda () {}))", kcall(store, "25")),
         format!("(list 'x {} 'y)", kcall(store, "27")),
         "(if k2 (let ((kk k2)) (set! k2 #f) (kk 40)) 'no-k2)".to_string(),
+        // the value handed to k is a fresh heap object that nothing else refers to
+        kcall(store, "(list 'fresh (vector 28))"),
     ]
 }
 
@@ -166,7 +168,12 @@ pub fn run(ctx: &Ctx) -> i32 {
             }
             st.used += 1;
             let (im, m) = st.pair.as_mut().unwrap();
+            // every collection point of the VM collects (invoking a continuation may be one)
+            marwood::vm::verif::reset();
+            marwood::vm::verif::set_eager_gc(true);
+            crate::conform::install_default_audit();
             let run = run_session_on(m, im, &forms);
+            marwood::vm::verif::set_eager_gc(false);
             acc.count("model_steps", run.model_steps);
             match &run.verdict {
                 Verdict::Agree => {
@@ -205,7 +212,7 @@ pub fn run(ctx: &Ctx) -> i32 {
     rep.transitions = Some(*acc.counters.get("model_steps").unwrap_or(&0));
     rep.traces_validated = Some(acc.nontrivial);
     rep.rule = format!(
-        "The full product: call/cc position ({} contexts: operand 2 of 3, last operand, variadic argument, let binding, tail of a procedure, inside a map callback, if test, nested operand, after heap-allocated operands (list, cons, apply), as a later element of a quasiquoted vector / list template and of a vector call) x receiver ({}: returns normally, escapes at once, escapes from a nested operand, a builtin, stores k in a variable / list / closure / vector-then-escapes) x surrounding frame (top level, variadic frame, after a different-arity tail call, 60 non-tail frames deep) x same-form re-entry loop (no / twice via a counter) x every sequence of <= {} later top-level invocation forms out of 8 (direct, guarded loop, inside map / for-each callbacks, inside the extent of a second continuation, from depth 3, from an operand position, re-entering the second continuation) = {} programs; each program also mutates a captured local and captured data between capture and re-entry and logs it (the log keeps the delivered result itself - a re-entry must not change an object already delivered - or, in the contexts with heap-allocated operands, a copy, so that those operands stay reachable only through the continuation). A collection is forced before every top-level form (heap audit attached). Every form's value and the log are compared with the reference CEK machine. Non-trivial = agreement on every form.",
+        "The full product: call/cc position ({} contexts: operand 2 of 3, last operand, variadic argument, let binding, tail of a procedure, inside a map callback, if test, nested operand, after heap-allocated operands (list, cons, apply), as a later element of a quasiquoted vector / list template and of a vector call) x receiver ({}: returns normally, escapes at once, escapes from a nested operand, a builtin, stores k in a variable / list / closure / vector-then-escapes) x surrounding frame (top level, variadic frame, after a different-arity tail call, 60 non-tail frames deep) x same-form re-entry loop (no / twice via a counter) x every sequence of <= {} later top-level invocation forms out of 9 (direct, guarded loop, inside map / for-each callbacks, inside the extent of a second continuation, from depth 3, from an operand position, re-entering the second continuation, with a freshly allocated value) = {} programs; each program also mutates a captured local and captured data between capture and re-entry and logs it (the log keeps the delivered result itself - a re-entry must not change an object already delivered - or, in the contexts with heap-allocated operands, a copy, so that those operands stay reachable only through the continuation). A collection is forced before every top-level form and at every point where the VM itself polls the collector (heap audit attached). Every form's value and the log are compared with the reference CEK machine. Non-trivial = agreement on every form.",
         CTXS.len(), RECVS.len(), max_inv, progs.len()
     );
     rep.extra("programs", json!(progs.len()));
